@@ -566,6 +566,13 @@ def shape_catalogue():
         prog(f"label_only_{tname}", tail + [("label", "e")])
         prog(f"jump_dead_{tname}", [_u(1), ("jump", "e"), _u(2), ("label", "e"), _u(3)] + tail)
         prog(f"cross_{tname}", [_u(1), ("if", [(False, [_c(10)], [("jump", "r1")])], None)] + tail, [[("label", "r1"), _u(2), ("if", [(True, [_c(11)], [("jump", "e0")])], None), _u(3), ("label", "e0")]])
+        prog(f"cross_into_if_block_{tname}", [("if", [(False, [_c(10)], [("label", "xb"), _u(1)])], None), _u(2)] + tail, [[_u(3), ("jump", "xb")]])
+        prog(f"cross_into_else_block_{tname}", [("if", [(True, [_c(10)], [_u(1)])], [("label", "xe"), _u(2)]), _u(3)] + tail,
+             [[("if", [(False, [_c(11)], [("jump", "xe")])], None), _u(4), ("ctrl", "end")]])
+        prog(f"cross_into_case_block_{tname}", [("switch", sw, [(case(1), [("label", "xc"), _u(1), ("ctrl", "break")]), (case(2), [_u(2)])]), _u(3)] + tail,
+             [[_u(4), ("if", [(False, [_c(11)], [("jump", "xc")])], None), _u(5), ("ctrl", "end")]])
+        prog(f"while_continue_if_break_{tname}", [("while", False, _c(10), [("if", [(False, [_c(11)], [("ctrl", "continue")])], None), _u(1),
+                                                                               ("if", [(False, [_c(12)], [_u(2)])], None), ("ctrl", "break_loop")]), _u(3)] + tail)
         prog(f"with_{tname}", [("with", "actor", ("int", 3), _u(1)), ("with", "object", ("const", "OBJ"), ("asg", ("flag_Set", (("const", "$A"), ("int", 2))))), ("with", "performer", ("int", 0), ("ctrl", "end")), ("op", "op_7", [("int", 7)], ("actor", ("const", "ACTOR_X"))), _u(3)] + tail)
         prog(f"with_in_if_{tname}", [("if", [(False, [_c(10)], [("with", "actor", ("int", 3), ("ctrl", "return"))])], None), _u(1)] + tail)
         prog(f"msgswitch_{tname}", [("msgswitch", "message_SwitchTalk", ("const", "$V"), [(("case", ("int", 1)), ("str", "one")), (("case", ("int", 2)), ("lang", (("english", "two"),))), (("default",), ("str", "def"))]), _u(1)] + tail)
